@@ -33,9 +33,11 @@ def attach(x):
     s = x.call('C_OpenSession', slot=slot)['h']; assert x.call('C_Login', s=s, user=1, pin=USER.hex())['rv'] == 0
     return s
 
-def obj_tmpl(x, label, ident, private):
+def obj_value(label, big=False): return (b'V' * 16 + label) * (400 if big else 1)      # big: ~10 KiB, the object file is rewritten with several write() calls
+def obj_tmpl(x, label, ident, private, big=False, **extra):
     ck = x.ck
-    return x.T({'CKA_CLASS': ck.CKO_SECRET_KEY, 'CKA_KEY_TYPE': ck.CKK_GENERIC_SECRET, 'CKA_TOKEN': True, 'CKA_PRIVATE': private, 'CKA_LABEL': label, 'CKA_ID': ident, 'CKA_VALUE': b'V' * 16 + label, 'CKA_SENSITIVE': False, 'CKA_EXTRACTABLE': True})
+    a = {'CKA_CLASS': ck.CKO_SECRET_KEY, 'CKA_KEY_TYPE': ck.CKK_GENERIC_SECRET, 'CKA_TOKEN': True, 'CKA_PRIVATE': private, 'CKA_LABEL': label, 'CKA_ID': ident, 'CKA_VALUE': obj_value(label, big), 'CKA_SENSITIVE': False, 'CKA_EXTRACTABLE': True}
+    a.update(extra); return x.T(a)
 
 # ------------------------------------------------------------------ (i) call granularity
 OPS = ['create', 'set', 'destroy', 'find', 'get']
@@ -125,6 +127,62 @@ def serial_job(job):
         shutil.rmtree(d, ignore_errors=True)
     return part
 
+# ------------------------------------------------------------------ (i-b) the NEXT call may be anything: every entry point that takes the object must see the change
+def observer_job(job):
+    """B warms its view of object K with call kind X; A commits a change (an attribute that decides X's answer, or destruction); B's very next call is X again."""
+    from ck import CK
+    ck = CK(job['hdr']); part = Part(); d = os.path.join(job['scratch'], 'obs-%d' % job['seed']); shutil.rmtree(d, ignore_errors=True); os.makedirs(d)
+    X = []
+    try:
+        prepare(job['paths'], ck, d); X = [start(job['paths'], ck, job['cfg'], d, i) for i in range(2)]; S = [attach(x) for x in X]; A, B = X; sA, sB = S
+        wk = A.call('C_CreateObject', s=sA, tmpl=A.T({'CKA_CLASS': ck.CKO_SECRET_KEY, 'CKA_KEY_TYPE': ck.CKK_AES, 'CKA_TOKEN': True, 'CKA_PRIVATE': False, 'CKA_LABEL': b'WRAPPER', 'CKA_VALUE': bytes(range(16)), 'CKA_WRAP': True, 'CKA_ENCRYPT': True, 'CKA_SENSITIVE': False, 'CKA_EXTRACTABLE': True}))
+        assert wk['rv'] == 0
+        KINDS = {   # observer call: (request builder given (x, s, h, wrapper handle), attribute change that must make it fail)
+            'C_WrapKey(as wrapped key)': (lambda x, s, h, w: dict(fn='C_WrapKey', s=s, mech=x.M('CKM_AES_KEY_WRAP_PAD'), wkey=w, key=h, buf=256), {'CKA_EXTRACTABLE': False}),
+            'C_WrapKey(as wrapping key)': (lambda x, s, h, w: dict(fn='C_WrapKey', s=s, mech=x.M('CKM_AES_KEY_WRAP_PAD'), wkey=h, key=w, buf=256), {'CKA_WRAP': False}),
+            'C_EncryptInit': (lambda x, s, h, w: dict(fn='C_EncryptInit', s=s, mech=x.M('CKM_AES_ECB'), key=h), {'CKA_ENCRYPT': False}),
+            'C_SignInit': (lambda x, s, h, w: dict(fn='C_SignInit', s=s, mech=x.M('CKM_AES_CMAC'), key=h), {'CKA_SIGN': False}),
+            'C_DeriveKey': (lambda x, s, h, w: dict(fn='C_DeriveKey', s=s, mech=x.M('CKM_AES_ECB_ENCRYPT_DATA', kdstr=(b'\x01' * 16).hex()), key=h, tmpl=x.T({'CKA_CLASS': ck.CKO_SECRET_KEY, 'CKA_KEY_TYPE': ck.CKK_AES, 'CKA_VALUE_LEN': 16, 'CKA_TOKEN': False})), {'CKA_DERIVE': False}),
+            'C_CopyObject': (lambda x, s, h, w: dict(fn='C_CopyObject', s=s, o=h, tmpl=x.T({'CKA_TOKEN': False})), None),
+            'C_GetObjectSize': (lambda x, s, h, w: dict(fn='C_GetObjectSize', s=s, o=h), None),
+            'C_DigestKey': (None, None),
+        }
+        n = 0
+        for kind, (mk, change) in KINDS.items():
+            for how in (['attribute', 'destroy'] if change else ['destroy']):
+                n += 1; lab = b'OBS-%d' % n
+                r = A.call('C_CreateObject', s=sA, tmpl=A.T({'CKA_CLASS': ck.CKO_SECRET_KEY, 'CKA_KEY_TYPE': ck.CKK_AES, 'CKA_TOKEN': True, 'CKA_PRIVATE': False, 'CKA_LABEL': lab, 'CKA_VALUE': bytes(range(16, 32)),
+                                                             'CKA_WRAP': True, 'CKA_ENCRYPT': True, 'CKA_SIGN': True, 'CKA_DERIVE': True, 'CKA_SENSITIVE': False, 'CKA_EXTRACTABLE': True}))
+                assert r['rv'] == 0; hA = r['h']
+                hs = B.findall(sB, {'CKA_LABEL': lab})[1]; hw = B.findall(sB, {'CKA_LABEL': b'WRAPPER'})[1]
+                if len(hs) != 1 or len(hw) != 1: part.violation(f'C_FindObjects|after-other-process-create|found-{len(hs)}', 'an object committed by another process is not found at the next call', {'label': lab.decode()}); continue
+                hB, wB = hs[0], hw[0]
+                def call_kind():
+                    if kind == 'C_DigestKey':
+                        if B.call('C_DigestInit', s=sB, mech=B.M('CKM_SHA256'))['rv'] != 0: return None
+                        rr = B.call('C_DigestKey', s=sB, key=hB); B.call('C_DigestFinal', s=sB, buf=32); return rr
+                    rr = B.call(**mk(B, sB, hB, wB))
+                    if rr['rv'] == 0 and kind in ('C_EncryptInit', 'C_SignInit'):
+                        B.call('C_Encrypt' if kind == 'C_EncryptInit' else 'C_Sign', s=sB, data=(b'\0' * 16).hex(), buf=64)
+                    return rr
+                warm = call_kind()
+                if warm is None or warm['rv'] != 0: part.observe('observer warm-up call failed', f'{kind}: {warm and warm["rvname"]}'); continue
+                if how == 'attribute': assert A.call('C_SetAttributeValue', s=sA, o=hA, tmpl=A.T(change))['rv'] == 0
+                else: assert A.call('C_DestroyObject', s=sA, o=hA)['rv'] == 0
+                nxt = call_kind()      # B's very next call
+                if nxt is not None and nxt['rv'] == 0:
+                    part.violation(f'{kind}|next-call-after-other-process-{"set:" + list(change)[0] if how == "attribute" else "destroy"}|stale-view-accepted', 'the next call of a process still acted on its cached copy of an object that another process had changed / destroyed', {'kind': kind, 'how': how, 'rv': nxt['rvname']})
+                part.case(('observer', kind, how), sample={'observer': kind, 'change': how, 'next_call_rv': nxt and nxt['rvname']} if n % 5 == 1 else None)
+        for x in X: x.call('C_Finalize'); x.close()
+        X = []
+    except AssertionError as e: part.inconc(f'observer setup failed: {e!r}')
+    except Died as ex: part.observe('side:C17 library terminated the host', {'kind': ex.kind(), 'fn': ex.fn}); part.inconc(f'executor died: {ex}')
+    except Hang: part.inconc('hang in observer run')
+    finally:
+        for x in X: x.kill()
+        shutil.rmtree(d, ignore_errors=True)
+    return part
+
 # ------------------------------------------------------------------ (ii) concurrent writers with FS-level delays
 def conc_job(job):
     from ck import CK
@@ -133,8 +191,8 @@ def conc_job(job):
     try:
         prepare(job['paths'], ck, d); nproc = job['nproc']
         X = [start(job['paths'], ck, job['cfg'], d, i) for i in range(nproc)]; S = [attach(x) for x in X]
-        shared = [b'SH-%d' % i for i in range(2)]
-        for lab in shared: assert X[0].call('C_CreateObject', s=S[0], tmpl=obj_tmpl(X[0], lab, b'init', False))['rv'] == 0
+        shared = [b'SH-%d' % i for i in range(2)]; bigrun = job['seed'] % 2 == 1
+        for lab in shared: assert X[0].call('C_CreateObject', s=S[0], tmpl=obj_tmpl(X[0], lab, b'init', False, big=bigrun))['rv'] == 0
         scripts = []; metas = []
         for p, x in enumerate(X):
             Sx = []; M = []
@@ -147,7 +205,7 @@ def conc_job(job):
                     val = b'p%d:%d' % (p, it); add({'fn': 'C_SetAttributeValue', 's': sref, 'o': '$%d.objs.0' % g, 'tmpl': x.T({'CKA_ID': val})}, ('write', lab, val))
                 elif c < 0.55:    # read a shared object
                     lab = rnd.choice(shared); f = add({'fn': 'C_FindObjectsInit', 's': sref, 'tmpl': x.T({'CKA_LABEL': lab})}, None); g = add({'fn': 'C_FindObjects', 's': sref, 'max': 4}, ('find', lab, None)); add({'fn': 'C_FindObjectsFinal', 's': sref}, None)
-                    add({'fn': 'C_GetAttributeValue', 's': sref, 'o': '$%d.objs.0' % g, 'tmpl': [{'t': ck.CKA_ID, 'buf': 64}]}, ('read', lab))
+                    add({'fn': 'C_GetAttributeValue', 's': sref, 'o': '$%d.objs.0' % g, 'tmpl': [{'t': ck.CKA_ID, 'buf': 64}, {'t': ck.CKA_VALUE, 'buf': 16000}]}, ('read', lab))
                 elif c < 0.85:    # create (and maybe destroy) an own object
                     lab = b'own-p%d-%d' % (p, it); cidx = add({'fn': 'C_CreateObject', 's': sref, 'tmpl': obj_tmpl(x, lab, b'own', rnd.random() < 0.5)}, ('create', lab))
                     if rnd.random() < 0.5: add({'fn': 'C_DestroyObject', 's': sref, 'o': '$%d.h' % cidx}, ('destroy', lab))
@@ -167,7 +225,9 @@ def conc_job(job):
                 if k == 'write':
                     if st['rv'] == 0: writes[m[1]].append((st['ns_call'], st['ns_ret'], m[2], p))
                     else: part.observe('concurrent C_SetAttributeValue failed (not committed)', ck.rv(st['rv']))
-                elif k == 'read' and st['rv'] == 0: reads.append((st['ns_call'], st['ns_ret'], m[1], bytes.fromhex(st['tmpl'][0].get('data', '')), p))
+                elif k == 'read' and st['rv'] == 0:
+                    reads.append((st['ns_call'], st['ns_ret'], m[1], bytes.fromhex(st['tmpl'][0].get('data', '')), p))
+                    if bytes.fromhex(st['tmpl'][1].get('data', '')) != obj_value(m[1], bigrun): part.violation('C_GetAttributeValue|shared-object-during-concurrent-writes|value-corrupt-or-missing', 'a committed object was read with a missing or corrupted CKA_VALUE while another process rewrote it', {'seed': job['seed'], 'label': m[1].decode(), 'len': len(st['tmpl'][1].get('data', '')) // 2})
                 elif k == 'read': part.violation(f'C_GetAttributeValue|shared-object-during-concurrent-writes|{ck.rv(st["rv"])}', 'reading a committed object failed while other processes write', {'seed': job['seed']})
                 elif k == 'find' and (st['rv'] != 0 or st['n'] != 1): part.violation(f'C_FindObjects|shared-object-during-concurrent-writes|found-{st.get("n")}', 'a committed object is not found exactly once while other processes write', {'seed': job['seed'], 'label': m[1].decode(), 'rv': ck.rv(st['rv'])})
                 elif k == 'create':
@@ -194,8 +254,8 @@ def conc_job(job):
         for p, x in enumerate(X):
             rvn, hs = x.findall(S[p], {}); labs = collections.Counter(); vals = {}
             for h in hs:
-                rvn2, v = x.getattrs(S[p], h, ['CKA_LABEL', 'CKA_ID', 'CKA_VALUE']); lab = v.get('CKA_LABEL'); labs[lab] += 1; vals[lab] = v
-                if lab is None or v.get('CKA_VALUE') != b'V' * 16 + lab: part.violation('final|object-undecodable-or-corrupt', 'an object is returned without label or with a corrupted value after concurrent writes', {'seed': job['seed'], 'proc': p, 'label': lab, 'rv': rvn2})
+                rvn2, v = x.getattrs(S[p], h, ['CKA_LABEL', 'CKA_ID', 'CKA_VALUE'], cap=16000); lab = v.get('CKA_LABEL'); labs[lab] += 1; vals[lab] = v
+                if lab is None or v.get('CKA_VALUE') != obj_value(lab, bigrun and lab in shared): part.violation('final|object-undecodable-or-corrupt', 'an object is returned without label or with a corrupted value after concurrent writes', {'seed': job['seed'], 'proc': p, 'label': lab, 'rv': rvn2})
             who = 'fresh-process' if x is fresh else 'writer-process'
             for lab, n in labs.items():
                 if n > 1: part.violation(f'final|{who}|object-duplicated', 'a committed object is present twice', {'seed': job['seed'], 'label': lab})
@@ -266,11 +326,12 @@ def duel_job(job):
         shutil.rmtree(d, ignore_errors=True)
     return part
 
-def dispatch(j): return serial_job(j) if j['kind'] == 'serial' else duel_job(j) if j['kind'] == 'duel' else conc_job(j)
+def dispatch(j): return serial_job(j) if j['kind'] == 'serial' else duel_job(j) if j['kind'] == 'duel' else observer_job(j) if j['kind'] == 'observer' else conc_job(j)
 def run(ctx):
     ctx.need('plain', 'asan'); common = dict(paths=ctx.paths, hdr=ctx.paths['asan']['hdr'], scratch=ctx.scratch); jobs = []
     for i in range(ctx.q(32, 64)): jobs.append(dict(common, kind='serial', cfg='asan' if i % 4 == 0 else 'plain', seed=ctx.seed * 1000 + i, nproc=2 + (i % 2), cases=ctx.q(40, 200), perms=None))
     for i in range(ctx.q(96, 400)): jobs.append(dict(common, kind='conc', cfg='asan' if i % 4 == 0 else 'plain', seed=ctx.seed * 1000 + 500 + i, nproc=2 + (i % 2), iters=ctx.q(30, 50), delay_p=0.3, delay_us=rnd_us(i)))
+    for i in range(ctx.q(2, 8)): jobs.append(dict(common, kind='observer', cfg='asan' if i % 2 else 'plain', seed=ctx.seed * 1000 + 700 + i))
     for i in range(ctx.q(16, 96)): jobs.append(dict(common, kind='duel', cfg='plain', seed=ctx.seed * 1000 + 800 + i, nproc=2 + (i % 2), rounds=ctx.q(30, 120), delay_p=[0.3, 0.6][i % 2], delay_us=[50, 200, 800][i % 3]))
     for part in pmap(dispatch, jobs, max(2, ctx.nproc // 3)): ctx.merge(part)
     ctx.rule = ('(i) one evaluation = one serialised interleaving of 2-3 processes x 1-3 calls (create/set/destroy/find/get on shared labels), distinct = (operation/existence shape, process order); '
